@@ -53,19 +53,19 @@ theorem edgesOK_reverse (l : List (P2 ℝ)) : edgesOK l.reverse = edgesOK l := b
   rw [allPairs_perm edgeOK_symm (cycEdges_reverse l), allPairs_map]
   exact allPairs_congr (fun e f => edgeOK_swap e f) _
 
-theorem distinct_perm {l l' : List (P2 ℝ)} (h : l.Perm l') : distinct l = distinct l' := by
+theorem c15_distinct_perm {l l' : List (P2 ℝ)} (h : l.Perm l') : distinct l = distinct l' := by
   unfold distinct
   exact allPairs_perm (fun p q => by rw [ptEq_comm]) h
 
 /-- the full predicate (≥ 3 distinct vertices, edges meet only where they must) is shift invariant -/
 theorem simple_shift (l : List (P2 ℝ)) (k : Nat) : Spec.simple (l.rotate k) = Spec.simple l := by
   unfold Spec.simple
-  rw [edgesOK_shift, distinct_perm (List.rotate_perm l k), List.length_rotate]
+  rw [edgesOK_shift, c15_distinct_perm (List.rotate_perm l k), List.length_rotate]
 
 /-- … and reversal invariant: a polygon is simple in either orientation -/
 theorem simple_reverse (l : List (P2 ℝ)) : Spec.simple l.reverse = Spec.simple l := by
   unfold Spec.simple
-  rw [edgesOK_reverse, distinct_perm (List.reverse_perm l), List.length_reverse]
+  rw [edgesOK_reverse, c15_distinct_perm (List.reverse_perm l), List.length_reverse]
 
 /-- `_is_simple`'s translate-to-the-mean / divide-by-the-extent preparation never changes the verdict -/
 theorem is_simple_normalisation_irrelevant (planar : List (V3 ℝ)) :
@@ -94,14 +94,14 @@ theorem polygon_new_rejects_short (hs : ndim = 2 ∧ (ncols = 2 ∨ ncols = 3)) 
   rw [if_neg (by omega), if_pos h]
 
 /-- `hasDup` is exactly "two rows of the raw array are equal" -/
-theorem hasDup_false_iff (ncols : Nat) (rows : List (V3 ℝ)) :
+theorem c15_hasDup_false_iff (ncols : Nat) (rows : List (V3 ℝ)) :
     hasDup ncols rows = false ↔ rows.Pairwise (fun u v => rowEqb ncols u v = false) := by
   induction rows with
   | nil => simp [hasDup]
   | cons v vs ih =>
     simp only [hasDup, Bool.or_eq_false_iff, List.any_eq_false, List.pairwise_cons, ih, Bool.not_eq_true]
 
-theorem rowEqb_three_iff (u v : V3 ℝ) : rowEqb 3 u v = true ↔ u = v := by
+theorem c15_rowEqb_three_iff (u v : V3 ℝ) : rowEqb 3 u v = true ↔ u = v := by
   unfold rowEqb
   simp only [Bool.and_eq_true, Bool.or_eq_true, eqb_iff]
   cases u; cases v
@@ -119,26 +119,26 @@ theorem polygon_new_rejects_repeated_point (h3 : 3 ≤ rows.length) (hd : ¬ row
     Polygon.new 2 3 rows normal ptol ts align = .error "ValueError:duplicate" := by
   apply polygon_new_rejects_duplicates 2 3 rows normal ptol ts align ⟨rfl, Or.inr rfl⟩ h3
   by_contra hc
-  rw [Bool.not_eq_true, hasDup_false_iff] at hc
+  rw [Bool.not_eq_true, c15_hasDup_false_iff] at hc
   apply hd
   refine hc.imp ?_
   intro u v huv heq
-  rw [← rowEqb_three_iff] at heq
+  rw [← c15_rowEqb_three_iff] at heq
   rw [heq] at huv; exact Bool.noConfusion huv
 
-theorem unitize_eq_some (c : V3 ℝ) (h : V3.norm c ≠ 0) : unitize c = some (V3.sdiv c (V3.norm c)) := by
+theorem c15_unitize_eq_some (c : V3 ℝ) (h : V3.norm c ≠ 0) : unitize c = some (V3.sdiv c (V3.norm c)) := by
   unfold unitize
   rw [if_neg]
   rw [eqb_iff, lit_zero]; exact h
 
-theorem unitize_eq_none (c : V3 ℝ) (h : V3.norm c = 0) : unitize c = none := by
+theorem c15_unitize_eq_none (c : V3 ℝ) (h : V3.norm c = 0) : unitize c = none := by
   unfold unitize
   rw [if_pos]
   rw [eqb_iff, lit_zero]; exact h
 
 /-- the coded orthogonality test of a supplied normal, spelled out (`none` = the nan array of a degenerate
 first corner or of a zero normal: nan never passes `np.isclose`) -/
-theorem chooseNormal_some_iff (computed : Option (V3 ℝ)) (nv : V3 ℝ) (n : Option (V3 ℝ)) :
+theorem c15_chooseNormal_some_iff (computed : Option (V3 ℝ)) (nv : V3 ℝ) (n : Option (V3 ℝ)) :
     chooseNormal computed (some nv) = .ok n ↔
       ∃ c, computed = some c ∧ V3.norm nv ≠ 0 ∧ n = some (V3.sdiv nv (V3.norm nv)) ∧
       |(|V3.dot c (V3.sdiv nv (V3.norm nv))|) - 1| ≤ 1 / 100000000 + 1 / 100000 * |(1:ℝ)| := by
@@ -151,11 +151,11 @@ theorem chooseNormal_some_iff (computed : Option (V3 ℝ)) (nv : V3 ℝ) (n : Op
   | some c =>
     dsimp only
     by_cases hz : V3.norm nv = 0
-    · rw [unitize_eq_none nv hz]
+    · rw [c15_unitize_eq_none nv hz]
       constructor
       · intro he; cases he
       · rintro ⟨_, _, h, _⟩; exact absurd hz h
-    · rw [unitize_eq_some nv hz]
+    · rw [c15_unitize_eq_some nv hz]
       unfold isclose rtolDefault atolDefault
       simp only [lit_one, Scalar.q, Scalar.ofNat_real, Scalar.abs_real, decide_eq_true_eq]
       split_ifs with h
@@ -169,11 +169,11 @@ theorem chooseNormal_some_iff (computed : Option (V3 ℝ)) (nv : V3 ℝ) (n : Op
           injection hc' with hc'; subst hc'
           exact absurd (by push_cast; exact h') h
 
-theorem chooseNormal_none (computed : Option (V3 ℝ)) : chooseNormal computed none = .ok computed := rfl
+theorem c15_chooseNormal_none (computed : Option (V3 ℝ)) : chooseNormal computed none = .ok computed := rfl
 
 /-- the coded coplanarity loop, spelled out: every vertex within `1e-8 + planar_tolerance·|d|` of the plane
 `n·x = d` through vertex 0 -/
-theorem coplanar_iff (n : V3 ℝ) (verts : List (V3 ℝ)) (ptol : ℝ) :
+theorem c15_coplanar_iff (n : V3 ℝ) (verts : List (V3 ℝ)) (ptol : ℝ) :
     coplanar n verts ptol = true ↔
       ∀ v ∈ verts, |V3.dot n v - V3.dot n (verts.getD 0 V3.zero)|
         ≤ 1 / 100000000 + ptol * |V3.dot n (verts.getD 0 V3.zero)| := by
@@ -269,20 +269,20 @@ end polygon
 
 /-! ### either orientation, any start vertex -/
 
-theorem rowEqb_comm (ncols : Nat) (u v : V3 ℝ) : rowEqb ncols u v = rowEqb ncols v u := by
+theorem c15_rowEqb_comm (ncols : Nat) (u v : V3 ℝ) : rowEqb ncols u v = rowEqb ncols v u := by
   unfold rowEqb; rw [eqb_comm u.x, eqb_comm u.y, eqb_comm u.z]
 
-theorem hasDup_perm (ncols : Nat) {l l' : List (V3 ℝ)} (h : l.Perm l') : hasDup ncols l = hasDup ncols l' := by
+theorem c15_hasDup_perm (ncols : Nat) {l l' : List (V3 ℝ)} (h : l.Perm l') : hasDup ncols l = hasDup ncols l' := by
   have key : ∀ m : List (V3 ℝ), hasDup ncols m = !decide (m.Pairwise (fun u v => rowEqb ncols u v = false)) := by
     intro m
     cases hm : hasDup ncols m
-    · rw [hasDup_false_iff] at hm; simp [hm]
+    · rw [c15_hasDup_false_iff] at hm; simp [hm]
     · have : ¬ m.Pairwise (fun u v => rowEqb ncols u v = false) := by
-        rw [← hasDup_false_iff, hm]; simp
+        rw [← c15_hasDup_false_iff, hm]; simp
       simp [this]
   rw [key l, key l']
   congr 2
-  exact propext (h.pairwise_iff (fun {x y} hxy => by rw [rowEqb_comm]; exact hxy))
+  exact propext (h.pairwise_iff (fun {x y} hxy => by rw [c15_rowEqb_comm]; exact hxy))
 
 /-- Transport of acceptance along any re-listing `T` of the vertex cycle that permutes the list, commutes with
 `map` and preserves `edgesOK` (instances below: reversal, cyclic shift). Hypotheses: a normal is supplied; the
@@ -307,9 +307,9 @@ theorem polygon_new_transport
   have hTv : (T rows).map (pad ncols) = T p.vertices := by rw [hv, hmap]
   refine ⟨rfl, hc, ?_, ?_, hcorner, ?_, ?_, ?_⟩
   · rw [(hperm rows).length_eq]; exact h3
-  · rw [hasDup_perm ncols (hperm rows)]; exact hd
+  · rw [c15_hasDup_perm ncols (hperm rows)]; exact hd
   · show coplanar p.normal ((T rows).map (pad ncols)) ptol = true
-    rw [coplanar_iff, hTv]
+    rw [c15_coplanar_iff, hTv]
     have hlen : 0 < (T p.vertices).length := by
       rw [(hperm p.vertices).length_eq, hv, List.length_map]; omega
     have h0 : (T p.vertices).getD 0 V3.zero ∈ p.vertices := by
@@ -362,7 +362,7 @@ theorem polygon_new_shift (k : Nat) (ncols : Nat) (rows : List (V3 ℝ)) (nv : V
     hacc hplanar hptol hcorner
 
 /-- for `u, w ⟂ n`, `|n| = 1`: `u × w` is parallel to `n` — `|u × w|² = ((u × w)·n)²` -/
-theorem cross_parallel (n u w : V3 ℝ) (hn : V3.dot n n = 1) (hu : V3.dot n u = 0) (hw : V3.dot n w = 0) :
+theorem c15_cross_parallel (n u w : V3 ℝ) (hn : V3.dot n n = 1) (hu : V3.dot n u = 0) (hw : V3.dot n w = 0) :
     V3.dot (V3.cross u w) (V3.cross u w) = (V3.dot (V3.cross u w) n) ^ 2 := by
   obtain ⟨nx, ny, nz⟩ := n; obtain ⟨ux, uy, uz⟩ := u; obtain ⟨wx, wy, wz⟩ := w
   simp only [V3.dot, V3.cross] at *
@@ -372,10 +372,10 @@ theorem cross_parallel (n u w : V3 ℝ) (hn : V3.dot n n = 1) (hu : V3.dot n u =
         - 2 * (nx * wx + ny * wy + nz * wz) * (ux * wx + uy * wy + uz * wz)) * hu
     + ((nx * wx + ny * wy + nz * wz) * (ux * ux + uy * uy + uz * uz)) * hw
 
-theorem dot_sdiv (a n : V3 ℝ) (k : ℝ) : V3.dot (V3.sdiv a k) n = V3.dot a n / k := by
+theorem c15_dot_sdiv (a n : V3 ℝ) (k : ℝ) : V3.dot (V3.sdiv a k) n = V3.dot a n / k := by
   simp only [V3.dot, V3.sdiv]; ring
 
-theorem unit_of_sdiv (nv : V3 ℝ) (h : V3.norm nv ≠ 0) :
+theorem c15_unit_of_sdiv (nv : V3 ℝ) (h : V3.norm nv ≠ 0) :
     V3.dot (V3.sdiv nv (V3.norm nv)) (V3.sdiv nv (V3.norm nv)) = 1 := by
   have hnn : 0 ≤ V3.dot nv nv := by
     simp only [V3.dot]; nlinarith [mul_self_nonneg nv.x, mul_self_nonneg nv.y, mul_self_nonneg nv.z]
@@ -386,7 +386,7 @@ theorem unit_of_sdiv (nv : V3 ℝ) (h : V3.norm nv ≠ 0) :
   linarith
 
 /-- a non-degenerate corner of vertices lying in a plane `n·x = const` (`|n| = 1`) yields ±n exactly -/
-theorem cornerNormal_dot_abs (verts : List (V3 ℝ)) (n : V3 ℝ) (hn : V3.dot n n = 1)
+theorem c15_cornerNormal_dot_abs (verts : List (V3 ℝ)) (n : V3 ℝ) (hn : V3.dot n n = 1)
     (h01 : V3.dot n (verts.getD 0 V3.zero) = V3.dot n (verts.getD 1 V3.zero))
     (h21 : V3.dot n (verts.getD 2 V3.zero) = V3.dot n (verts.getD 1 V3.zero))
     (hnd : V3.norm (cornerCross verts) ≠ 0) :
@@ -402,8 +402,8 @@ theorem cornerNormal_dot_abs (verts : List (V3 ℝ)) (n : V3 ℝ) (hn : V3.dot n
   have hw : V3.dot n (v0 - v1) = 0 := by
     have : V3.dot n (v0 - v1) = V3.dot n v0 - V3.dot n v1 := by simp only [V3.dot, V3.sub_x, V3.sub_y, V3.sub_z]; ring
     rw [this, h01, sub_self]
-  have key := cross_parallel n _ _ hn hu hw
-  rw [dot_sdiv]
+  have key := c15_cross_parallel n _ _ hn hu hw
+  rw [c15_dot_sdiv]
   have hk : V3.norm (V3.cross (v2 - v1) (v0 - v1)) = |V3.dot (V3.cross (v2 - v1) (v0 - v1)) n| := by
     unfold V3.norm V3.normSq
     rw [Scalar.sqrt_real, key, Real.sqrt_sq_eq_abs]
@@ -414,19 +414,19 @@ theorem cornerNormal_dot_abs (verts : List (V3 ℝ)) (n : V3 ℝ) (hn : V3.dot n
 /-- the orthogonality test of a supplied normal PASSES whenever the first three vertices lie in a plane
 orthogonal to it and the first corner is not degenerate (so the hypothesis `hcorner` of the transport
 theorems is automatic for non-degenerate corners). -/
-theorem chooseNormal_of_planar (verts : List (V3 ℝ)) (nv : V3 ℝ) (hnv : V3.norm nv ≠ 0)
+theorem c15_chooseNormal_of_planar (verts : List (V3 ℝ)) (nv : V3 ℝ) (hnv : V3.norm nv ≠ 0)
     (h01 : V3.dot (V3.sdiv nv (V3.norm nv)) (verts.getD 0 V3.zero)
       = V3.dot (V3.sdiv nv (V3.norm nv)) (verts.getD 1 V3.zero))
     (h21 : V3.dot (V3.sdiv nv (V3.norm nv)) (verts.getD 2 V3.zero)
       = V3.dot (V3.sdiv nv (V3.norm nv)) (verts.getD 1 V3.zero))
     (hnd : V3.norm (cornerCross verts) ≠ 0) :
     chooseNormal (cornerNormal verts) (some nv) = .ok (some (V3.sdiv nv (V3.norm nv))) := by
-  rw [chooseNormal_some_iff]
-  refine ⟨_, unitize_eq_some _ hnd, hnv, rfl, ?_⟩
-  rw [cornerNormal_dot_abs verts _ (unit_of_sdiv nv hnv) h01 h21 hnd]
+  rw [c15_chooseNormal_some_iff]
+  refine ⟨_, c15_unitize_eq_some _ hnd, hnv, rfl, ?_⟩
+  rw [c15_cornerNormal_dot_abs verts _ (c15_unit_of_sdiv nv hnv) h01 h21 hnd]
   norm_num
 
-theorem getD_mem_of_three {γ : Type} (l : List γ) (d : γ) (h : 3 ≤ l.length) :
+theorem c15_getD_mem_of_three {γ : Type} (l : List γ) (d : γ) (h : 3 ≤ l.length) :
     l.getD 0 d ∈ l ∧ l.getD 1 d ∈ l ∧ l.getD 2 d ∈ l := by
   match l, h with
   | a :: b :: c :: t, _ => simp
@@ -450,15 +450,15 @@ theorem polygon_new_transport_planar
   have hv : p.vertices = rows.map (pad ncols) := by rw [hp]
   have hTv : (T rows).map (pad ncols) = T p.vertices := by rw [hv, hmap]
   have hnormal : p.normal = V3.sdiv nv (V3.norm nv) := by
-    obtain ⟨_, _, _, h, _⟩ := (chooseNormal_some_iff _ _ _).1 hn
+    obtain ⟨_, _, _, h, _⟩ := (c15_chooseNormal_some_iff _ _ _).1 hn
     injection h
   apply polygon_new_transport T hperm hmap hedges ncols rows nv ptol align R hal p hacc hplanar hptol
   rw [hTv, hnormal]
   have hlen : 3 ≤ (T p.vertices).length := by
     rw [(hperm p.vertices).length_eq, hv, List.length_map]; exact h3
-  obtain ⟨m0, m1, m2⟩ := getD_mem_of_three (T p.vertices) V3.zero hlen
+  obtain ⟨m0, m1, m2⟩ := c15_getD_mem_of_three (T p.vertices) V3.zero hlen
   have mem : ∀ x, x ∈ T p.vertices → x ∈ p.vertices := fun x hx => (hperm p.vertices).mem_iff.1 hx
-  apply chooseNormal_of_planar _ _ hnv
+  apply c15_chooseNormal_of_planar _ _ hnv
   · rw [← hnormal]; exact hplanar _ (mem _ m0) _ (mem _ m1)
   · rw [← hnormal]; exact hplanar _ (mem _ m2) _ (mem _ m1)
   · exact hnd
@@ -492,12 +492,12 @@ theorem polygon_new_shift_planar (k : Nat) (ncols : Nat) (rows : List (V3 ℝ)) 
     (fun f l => (List.map_rotate f l k).symm) (fun l => edgesOK_shift l k) ncols rows nv ptol align R hal p
     hacc hplanar hptol hnv hnd
 
-theorem map_pad_three (rows : List (V3 ℝ)) : rows.map (pad 3) = rows := by
+theorem c15_map_pad_three (rows : List (V3 ℝ)) : rows.map (pad 3) = rows := by
   have : (pad 3 : V3 ℝ → V3 ℝ) = id := by funext v; simp [pad]
   rw [this, List.map_id]
 
 /-- for `u, w ⟂ n`, `|n| = 1`: `u × w = ((u × w)·n) n` -/
-theorem cross_eq_smul (n u w : V3 ℝ) (hn : V3.dot n n = 1) (hu : V3.dot n u = 0) (hw : V3.dot n w = 0) :
+theorem c15_cross_eq_smul (n u w : V3 ℝ) (hn : V3.dot n n = 1) (hu : V3.dot n u = 0) (hw : V3.dot n w = 0) :
     V3.cross u w = V3.smul (V3.dot (V3.cross u w) n) n := by
   obtain ⟨nx, ny, nz⟩ := n; obtain ⟨ux, uy, uz⟩ := u; obtain ⟨wx, wy, wz⟩ := w
   simp only [V3.dot, V3.cross, V3.smul] at *
@@ -506,7 +506,7 @@ theorem cross_eq_smul (n u w : V3 ℝ) (hn : V3.dot n n = 1) (hu : V3.dot n u = 
   · linear_combination (-(uz * wx - ux * wz)) * hn + (nz * wx - nx * wz) * hu - (nz * ux - nx * uz) * hw
   · linear_combination (-(ux * wy - uy * wx)) * hn + (nx * wy - ny * wx) * hu - (nx * uy - ny * ux) * hw
 
-theorem dot_smul_left (k : ℝ) (a v : V3 ℝ) : V3.dot (V3.smul k a) v = k * V3.dot a v := by
+theorem c15_dot_smul_left (k : ℝ) (a v : V3 ℝ) : V3.dot (V3.smul k a) v = k * V3.dot a v := by
   simp only [V3.dot, V3.smul]; ring
 
 /-- **`polygon_accepts_simple_planar_partial`** — the acceptance half of the property for `(N,3)` input without a
@@ -522,41 +522,41 @@ theorem polygon_accepts_simple_planar_partial (rows : List (V3 ℝ)) (n : V3 ℝ
     (hs : ∀ m, edgesOK ((align m rows).map xy) = true) :
     ∃ p, Polygon.new 2 3 rows none ptol true align = .ok p ∧ p.vertices = rows ∧
       (∀ v ∈ rows, ∀ w ∈ rows, V3.dot p.normal v = V3.dot p.normal w) := by
-  obtain ⟨m0, m1, m2⟩ := getD_mem_of_three rows V3.zero h3
+  obtain ⟨m0, m1, m2⟩ := c15_getD_mem_of_three rows V3.zero h3
   set a := cornerCross rows with ha
   have hsub : ∀ x y : V3 ℝ, V3.dot n (x - y) = V3.dot n x - V3.dot n y := by
     intro x y; simp only [V3.dot, V3.sub_x, V3.sub_y, V3.sub_z]; ring
   have hpar : a = V3.smul (V3.dot a n) n := by
     rw [ha]; unfold cornerCross
-    apply cross_eq_smul n _ _ hn
+    apply c15_cross_eq_smul n _ _ hn
     · rw [hsub, hplanar _ m2 _ m1, sub_self]
     · rw [hsub, hplanar _ m0 _ m1, sub_self]
   set nn := V3.sdiv a (V3.norm a) with hnn
   have hdot : ∀ v, V3.dot nn v = V3.dot a n / V3.norm a * V3.dot n v := by
     intro v
-    rw [hnn, dot_sdiv, hpar, dot_smul_left]
+    rw [hnn, c15_dot_sdiv, hpar, c15_dot_smul_left]
     rw [← hpar]; ring
   have hconst : ∀ v ∈ rows, ∀ w ∈ rows, V3.dot nn v = V3.dot nn w := by
     intro v hv w hw; rw [hdot, hdot, hplanar v hv w hw]
   refine ⟨⟨rows, nn, .fresh, .fresh⟩, ?_, rfl, hconst⟩
   rw [polygon_new_accepts_iff]
   refine ⟨rfl, Or.inr rfl, h3, ?_, ?_, ?_, ?_, ?_⟩
-  · rw [hasDup_false_iff]
+  · rw [c15_hasDup_false_iff]
     refine hd.imp ?_
     intro u v huv
     by_contra hc
-    rw [Bool.not_eq_false, rowEqb_three_iff] at hc
+    rw [Bool.not_eq_false, c15_rowEqb_three_iff] at hc
     exact huv hc
-  · rw [map_pad_three, chooseNormal_none]
+  · rw [c15_map_pad_three, c15_chooseNormal_none]
     unfold cornerNormal
-    rw [unitize_eq_some _ hnd]
-  · rw [map_pad_three, coplanar_iff]
+    rw [c15_unitize_eq_some _ hnd]
+  · rw [c15_map_pad_three, c15_coplanar_iff]
     intro v hv
     rw [hconst v hv _ m0, sub_self, abs_zero]
     have : 0 ≤ ptol * |V3.dot nn (rows.getD 0 V3.zero)| := mul_nonneg hptol (abs_nonneg _)
     linarith
-  · intro _; rw [map_pad_three]; exact hs _
-  · rw [map_pad_three]
+  · intro _; rw [c15_map_pad_three]; exact hs _
+  · rw [c15_map_pad_three]
 
 /-- **A degenerate first corner is rejected whatever the rest of the polygon is**: three collinear leading
 vertices give `cross = 0`, `0/0 = nan`, and nan passes no `np.isclose` — "Not all vertices are coplanar"
@@ -568,11 +568,11 @@ theorem polygon_new_rejects_degenerate_corner (ndim ncols : Nat) (rows : List (V
     Polygon.new ndim ncols rows none ptol ts align = .error "ValueError:coplanar" ∧
     ∀ nv, Polygon.new ndim ncols rows (some nv) ptol ts align = .error "ValueError:normal" := by
   have hc : cornerNormal (rows.map (pad ncols)) = none := by
-    unfold cornerNormal; exact unitize_eq_none _ hdeg
+    unfold cornerNormal; exact c15_unitize_eq_none _ hdeg
   constructor
   · unfold Polygon.new
     rw [if_neg (by omega), if_neg (by omega), if_neg (by rw [hd]; simp)]
-    simp only [hc, chooseNormal_none]
+    simp only [hc, c15_chooseNormal_none]
   · intro nv
     unfold Polygon.new
     rw [if_neg (by omega), if_neg (by omega), if_neg (by rw [hd]; simp)]
@@ -621,7 +621,7 @@ theorem convex_new_rejects_nonhull (ndim ncols : Nat) (rows : List (V3 ℝ)) (no
 section reorder
 variable {β : Type}
 
-theorem sortKeys_length (rot : List (V3 ℝ)) : (sortKeys rot).length = rot.length := by
+theorem c15_sortKeys_length (rot : List (V3 ℝ)) : (sortKeys rot).length = rot.length := by
   unfold sortKeys relAngles
   simp
 
@@ -634,20 +634,20 @@ theorem reorder_is_perm (rot : List (V3 ℝ)) (payload : List β) (hlen : rot.le
   refine h1.trans ?_
   have : (List.zip (sortKeys rot) payload).map (·.2) = payload := by
     apply List.map_snd_zip
-    rw [sortKeys_length, hlen]
+    rw [c15_sortKeys_length, hlen]
   rw [this]
 
 theorem c15_two_pi_pos : (0:ℝ) < Scalar.lit 2 * Scalar.pi := by
   rw [lit_two, Scalar.pi_real]; exact mul_pos two_pos Real.pi_pos
 
-theorem relAngles_cons (r0 : V3 ℝ) (rs : List (V3 ℝ)) :
+theorem c15_relAngles_cons (r0 : V3 ℝ) (rs : List (V3 ℝ)) :
     relAngles (r0 :: rs) = 0 :: rs.map (fun v => pmod (Scalar.atan2 v.y v.x - Scalar.atan2 r0.y r0.x)
       (Scalar.lit 2 * Scalar.pi)) := by
   unfold relAngles
   simp only [List.map_cons, List.getD_cons_zero, sub_self, pmod_zero, List.map_map]
   rfl
 
-theorem relAngles_nonneg (rot : List (V3 ℝ)) : ∀ a ∈ relAngles rot, 0 ≤ a ∧ a < Scalar.lit 2 * Scalar.pi := by
+theorem c15_relAngles_nonneg (rot : List (V3 ℝ)) : ∀ a ∈ relAngles rot, 0 ≤ a ∧ a < Scalar.lit 2 * Scalar.pi := by
   intro a ha
   unfold relAngles at ha
   simp only [List.map_map, List.mem_map] at ha
@@ -663,7 +663,7 @@ theorem reorder_keeps_first (r0 : V3 ℝ) (rs : List (V3 ℝ)) (v0 : β) (vs : L
     (reorder (r0 :: rs) (v0 :: vs)).head? = some v0 := by
   unfold reorder
   have hk : sortKeys (r0 :: rs) = (0, V3.norm r0) :: (sortKeys (r0 :: rs)).tail := by
-    unfold sortKeys; rw [relAngles_cons]; simp
+    unfold sortKeys; rw [c15_relAngles_cons]; simp
   rw [hk, List.zip_cons_cons, List.head?_map]
   rw [isort_head]
   · rfl
@@ -673,7 +673,7 @@ theorem reorder_keeps_first (r0 : V3 ℝ) (rs : List (V3 ℝ)) (v0 : β) (vs : L
     have hnn : 0 ≤ y.1.1 := by
       have hmem : y.1 ∈ sortKeys (r0 :: rs) := List.mem_of_mem_tail hy1
       unfold sortKeys at hmem
-      exact (relAngles_nonneg _ _ (List.of_mem_zip hmem).1).1
+      exact (c15_relAngles_nonneg _ _ (List.of_mem_zip hmem).1).1
     rcases hnn.lt_or_eq with h | h
     · exact Or.inl h
     · exact Or.inr ⟨h, hray y.1 hy1 h.symm⟩
@@ -842,7 +842,7 @@ example : Spec.simple exBowtie = false := by unfold exBowtie; c15_eval
 example : segMeet (⟨0,0⟩ : P2 ℝ) ⟨1,1⟩ ⟨1,0⟩ ⟨0,1⟩ = true := by c15_eval
 example : segMeet (⟨0,0⟩ : P2 ℝ) ⟨1,0⟩ ⟨1,1⟩ ⟨0,1⟩ = false := by c15_eval
 
-theorem pad_three (v : V3 ℝ) : pad 3 v = v := by simp [pad]
+theorem c15_pad_three (v : V3 ℝ) : pad 3 v = v := by simp [pad]
 
 theorem exSquare3_normal : cornerNormal (exSquare3.map (pad 3)) = some ⟨0,0,1⟩ := by
   simp [cornerNormal, cornerCross, unitize, Scalar.eqb, exSquare3, pad, V3.cross, V3.sdiv, V3.norm, V3.normSq,
@@ -854,9 +854,9 @@ example : Polygon.new 2 3 exSquare3 none (1/100000) true (fun _ vs => vs)
   rw [polygon_new_accepts_iff]
   refine ⟨rfl, Or.inr rfl, by simp [exSquare3], ?_, ?_, ?_, ?_, ?_⟩
   · simp [exSquare3, hasDup, rowEqb, Scalar.eqb]
-  · rw [chooseNormal_none, exSquare3_normal]
-  · rw [coplanar_iff]; simp [exSquare3, pad, V3.dot, V3.zero]
-  · intro _; simp only [exSquare3, List.map_cons, List.map_nil, pad_three]; c15_eval
+  · rw [c15_chooseNormal_none, exSquare3_normal]
+  · rw [c15_coplanar_iff]; simp [exSquare3, pad, V3.dot, V3.zero]
+  · intro _; simp only [exSquare3, List.map_cons, List.map_nil, c15_pad_three]; c15_eval
   · simp [exSquare3, pad]
 
 /-- … and the bow-tie is rejected by the simplicity test -/
@@ -865,7 +865,7 @@ example : ∀ p, Polygon.new 2 3 exBowtie3 none (1/100000) true (fun _ vs => vs)
   rw [polygon_new_accepts_iff] at h
   obtain ⟨_, _, _, _, _, _, hs, _⟩ := h
   have := hs rfl
-  simp only [exBowtie3, List.map_cons, List.map_nil, pad_three] at this
+  simp only [exBowtie3, List.map_cons, List.map_nil, c15_pad_three] at this
   revert this
   c15_eval
 
